@@ -22,6 +22,7 @@ def check(cx):
         'R1.4 no receiver can be reached by two fan-outs for one target',
         'R1.5 every copy is prefixed with the sender\'s own source and carries "PRIVMSG|NOTICE <target> :<text>" of exactly the given target and text',
         'R1.6 no other send site exists in the handler; a user\'s queue is written only by User::send_* and read only by the owner\'s receiver arm, which forwards the received string unchanged',
+        'R1.8 the source string is "<nick>!~<user>@<host>" built from the connection\'s current fields, is recomputed by every setter of those fields, and a User\'s copy is only ever taken from its connection\'s string',
         'R1.7 status prefix characters, target-type bits, rank sets and rank flags agree (get_privmsg_target_type, fan-out guards, ChannelUserModes::to_string)',
     ]
     ck.does_not_decide += ['that Channel.users equals the true membership after an arbitrary history (C04 decides the structural '
@@ -161,6 +162,10 @@ def check(cx):
         if is_call(e, 'recv') and e.data['args'][0] == ('field', CONN, 'receiver') and not fn.startswith(pi):
             r6.violation('%s|foreign-recv' % short_fn(fn), 'the message queue is drained outside the connection loop', loc=cx.loc(e.node))
 
+    # ---- R1.8 the source string
+    r8 = cx.rule('R1.8', 'source string integrity', floor=8, kind='provenance')
+    check_source_string(cx, r8)
+
     # ---- R1.7 prefix / bit / set / flag table
     r7 = cx.rule('R1.7', 'status prefix <-> target bit <-> rank set <-> rank flag', floor=10, kind='table-agreement')
     wg = cx.walk(M.gpt, args=[('param', 'target')])
@@ -190,6 +195,69 @@ def check(cx):
         if shown.get(ch) != {FLAG_FIELD[setname]}:
             r7.violation('ChannelUserModes::to_string|prefix-%s' % setname, "prefix '%s' is displayed for flags %s, expected %s"
                          % (ch, sorted(shown.get(ch, [])), FLAG_FIELD[setname]), loc=cx.fn('to_string', 'ChannelUserModes'))
+
+
+def check_source_string(cx, rule):
+    """R1.8 (all build configurations given)"""
+    ME = ('param', 'self')
+    for cfg, pg in cx.progs.items():
+        fu = cx.fn('update_source', 'ConnUserState', prog=pg)
+        w = cx.walk(fu, args=[ME], prog=pg, key='c01src')
+        apps = [e for e in w.events if e.kind == 'local_mut' and e.data['method'] in ('push', 'push_str', 'add_assign')]
+        st = [e for e in w.events if e.kind == 'assign' and not e.data.get('init') and e.data['lhs'] == ('field', ME, 'source')]
+        nick_some = Atom(('is', ('field', ME, 'nick'), 'Some'))
+        name_some = Atom(('is', ('field', ME, 'name'), 'Some'))
+        want = [(('some_of', ('field', ME, 'nick')), nick_some), (('lit', '!'), nick_some), (('lit', '~'), name_some),
+                (('some_of', ('field', ME, 'name')), name_some), (('lit', '@'), T), (('field', ME, 'hostname'), T)]
+        got = [(e.data['args'][0], e.pc) for e in apps]
+        rule.instance('[%s] update_source appends nick ! ~ user @ host and stores the result' % cfg)
+        ok = len(got) == len(want) and all(g[0] == x[0] and equivalent(g[1], x[1])[0] for g, x in zip(got, want)) and len(st) == 1 \
+            and st[0].pc == T and apps and st[0].data['rhs'] == apps[0].data['local'] and st[0].seq > apps[-1].seq and \
+            len({repr(e.data['local']) for e in apps}) == 1
+        if not ok:
+            rule.violation('ConnUserState::update_source|shape', 'the source string is not built as <nick>!~<user>@<host> from the '
+                           'connection\'s own fields: every message of this connection is then attributed wrongly', loc=fu, config=cfg)
+        # setters: field := Some(argument) (hostname := argument), then update_source()
+        for setter, fld, wrap in (('set_nick', 'nick', True), ('set_name', 'name', True), ('set_hostname', 'hostname', False)):
+            if not cx.has_fn(setter, 'ConnUserState', prog=pg):
+                continue
+            fs = cx.fn(setter, 'ConnUserState', prog=pg)
+            ARG = ('param', fld)
+            ws = cx.walk(fs, args=[ME, ARG], prog=pg, key='c01src')
+            asg = [e for e in ws.events if e.kind == 'assign' and not e.data.get('init') and e.data['lhs'] == ('field', ME, fld)]
+            upd = [e for e in ws.events if is_call(e, 'update_source') and e.data['args'][:1] == [ME]]
+            rule.instance('[%s] %s stores its argument and recomputes the source string' % (cfg, setter))
+            good = len(asg) == 1 and asg[0].pc == T and asg[0].data['rhs'] == ((('some', ARG)) if wrap else ARG) and \
+                len(upd) >= 1 and upd[-1].pc == T and upd[-1].seq > asg[0].seq
+            if not good:
+                rule.violation('ConnUserState::%s|recompute' % setter, '%s does not store its argument and then recompute the source string: '
+                               'messages keep being attributed to the previous identity' % setter, loc=fs, config=cfg)
+        # writers of the identity fields and of the two source strings
+        for fn, e in cx_census(cx, pg):
+            if e.kind != 'assign' or e.data.get('init'):
+                continue
+            adt = (e.data.get('lhs_node') or {}).get('adt', '')
+            f = path_of(e.data['lhs'])[-1:]
+            b = short_fn(fn.replace('::{closure#0}', ''))
+            if adt.endswith('::ConnUserState') and f and f[0] in ('nick', 'name', 'hostname', 'source'):
+                allowed = {'nick': 'set_nick', 'name': 'set_name', 'hostname': 'set_hostname', 'source': 'update_source'}[f[0]]
+                rule.instance('[%s] %s written by %s' % (cfg, f[0], b))
+                if b != allowed:
+                    rule.violation('%s|writes-identity|%s' % (b, f[0]), '%s writes ConnUserState.%s directly (bypassing %s, the source '
+                                   'string is then stale)' % (b, f[0], allowed), loc=pg.loc(e.node), config=cfg)
+            if adt.endswith('::User') and f == ['source']:
+                rule.instance('[%s] User.source written by %s' % (cfg, b))
+                src_ok = b in ('update_nick', 'update_hostname') and e.data['rhs'] == ('field', ('param', 'user_state'), 'source') and e.pc == T
+                if not src_ok:
+                    rule.violation('%s|writes-user-source' % b, 'User.source is set to something other than its connection\'s source string',
+                                   loc=pg.loc(e.node), config=cfg)
+        fnew = cx.fn('new', 'structs::User', prog=pg)
+        wn = cx.walk(fnew, prog=pg, key='c01src')
+        lit = [e for e in wn.events if e.kind == 'adt' and e.data['adt'].endswith('::User')]
+        rule.instance('[%s] User::new copies the connection\'s source string' % cfg)
+        flds = dict(lit[0].data['fields']) if lit and not isinstance(lit[0].data['fields'], dict) else (lit[0].data['fields'] if lit else {})
+        if len(lit) != 1 or flds.get('source') != ('field', ('param', 'user_state'), 'source'):
+            rule.violation('User::new|source', 'a new user\'s source string is not its connection\'s source string', loc=fnew, config=cfg)
 
 
 def _iterates_set(prog, e):
